@@ -113,6 +113,14 @@ def _apply_transforms(e, st, pv, transforms):
         elif tr[0] == 'fuse':
             cur = _load(e, st, tr[1])
             _store(e, st, tr[1], VAgg(name='Fuse', fields=cur.fields, extra={'terminated': True}))
+        elif tr[0] == 'stream_fuse':
+            inner = e.get_field(pv, ('v', 'Ready', 0))
+            di = e.discriminant_of(st, inner).v
+            if not isinstance(di, int):
+                raise Unsupported("symbolic stream item under StreamExt::fuse")
+            if di == 0:
+                cur = _load(e, st, tr[1])
+                _store(e, st, tr[1], VAgg(name='StreamFuse', fields=cur.fields, extra={'done': True}))
     return pv
 
 
@@ -158,6 +166,17 @@ def poll_into(e, st, ref, cx, t, transforms=()):
         # Next<'_, PollFn<Box<dyn FnMut>>>: poll the stream = call the boxed closure
         sref = peel(e, st, fut.fields[('f', 0)])
         pf = _load(e, st, sref)
+        # stream Fuse wrappers (StreamExt::fuse): once the inner stream ended, Ready(None) without polling it again
+        while isinstance(pf, VAgg) and pf.name == 'StreamFuse':
+            if pf.extra.get('done'):
+                pv = _apply_transforms(e, st, VAgg(name='Poll', vname='Ready', disc=0, fields={('v', 'Ready', 0): VAgg(name='Option', vname='None', disc=0)}), transforms)
+                f2 = st.frames[-1]
+                e.write_place(st, f2, t.dest, pv)
+                f2.bb = t.target
+                return None
+            transforms = (('stream_fuse', sref),) + tuple(transforms)
+            sref = peel(e, st, VRef(sref.root, sref.path + (('f', 0),), True))
+            pf = _load(e, st, sref)
         if isinstance(pf, VAgg) and pf.name == 'PollFn':
             cref = peel(e, st, pf.fields[('f', 0)])
             clo = _load(e, st, cref)
@@ -276,6 +295,12 @@ def m_is_terminated(e, st, fr, t, args):
     fut = _load(e, st, ref)
     if isinstance(fut, VAgg) and fut.name == 'Fuse':
         return VScalar(bool(fut.extra.get('terminated')))
+    if isinstance(fut, VAgg) and fut.name == 'StreamNext':
+        sf = _load(e, st, peel(e, st, fut.fields[('f', 0)]))
+        if isinstance(sf, VAgg) and sf.name == 'StreamFuse':
+            return VScalar(bool(sf.extra.get('done')))
+    if isinstance(fut, VAgg) and fut.name == 'StreamFuse':
+        return VScalar(bool(fut.extra.get('done')))
     return NotImplemented
 
 
